@@ -171,7 +171,15 @@ func (r *zzChunkReader) Read(p []byte) (int, error) {
 
 // streaming reader: every split of the escaped stream (incl. between leader and code) x every sequence of output sizes
 func zzH_C04_stream() {
-	t := zzBuiltinTable(verifBound("TABLE"))
+	var t *escapeTable
+	switch verifBound("TABLE") {
+	case 3:
+		t = zzMkTable(nil) // "escape_chars": [] — a table that protects nothing
+	case 4:
+		t = nil // no table announced
+	default:
+		t = zzBuiltinTable(verifBound("TABLE"))
+	}
 	m := verifBound("M")
 	data := zzSymData(m)
 	esc := escapeData(data, t)
